@@ -434,6 +434,12 @@ def run(ctx, br):
                           "hazard": hz})
     n_good = len(progs)
     progs += [mutate_program(rng, rng.choice(progs[:n_prog])) for _ in range(max(4, n_prog // 2))]
+    # validation of scope prefixes (validateScopeTypes): a prefix naming a variable twice is rejected since the
+    # repair of C11-K12; replayed by the judge on Model/ParserFiles.v validate_scopes like any other program
+    for nm, txt in ((b"dupvar.frugal", b"struct E {}\nscope Sc prefix a.{zone}.{zone} { op: E }\n"),
+                    (b"dupvar2.frugal", b"struct E {}\nscope Ok prefix {a}.{b} { op: E }\nscope Sc prefix {u}.x.{v}.{u} { op: E }\n"),
+                    (b"twovars.frugal", b"struct E {}\nscope Sc prefix a.{zone}.{user} { op: E }\n")):
+        progs.append({"files": {nm: txt}, "root": nm, "models": {}, "mutated": True})
     preqs = []
     for i, p in enumerate(progs):
         preqs.append({"op": "files", "dir": os.path.join(ctx.rundir, "prog", str(i)),
